@@ -12,6 +12,7 @@ import overlay, kanirun
 from props import PROPS
 
 VERIF = overlay.VERIF
+OUT = os.environ.get("VERIF_OUT", VERIF)  # where evidence/ and replays/ are written (seed runs redirect it)
 
 
 def load_known():
@@ -46,7 +47,10 @@ def select(prop, tier):
     cfg = PROPS[prop]
     hs = overlay.all_harnesses()
     sel = []
+    only = os.environ.get("VERIF_ONLY")
     for name, h in sorted(hs.items()):
+        if only and not re.search(only, name):
+            continue
         for pre in cfg["prefixes"]:
             if name.startswith(pre):
                 thorough_only = re.match(r"c\d\d_t_", name) is not None
@@ -158,7 +162,7 @@ def run_property(prop, tier, seed, keep=False):
                     samples.append(sample)
                     continue
                 # unwinding-assertion failures alone are a bound problem unless they replay
-                tests, pout = kanirun.playback(base, h, feats, mem, htime + 600)
+                tests, pout = kanirun.playback(base, h, feats, mem, htime + 600, r.get("unwindset"))
                 confirmed = None
                 tried = []
                 unknown_descs = set(it[0] for it in unknown)
@@ -179,7 +183,7 @@ def run_property(prop, tier, seed, keep=False):
                             confirmed = dict(what=what, bytes_hex=data.hex(), profile=profile, native=verdict, msg=msg[:300])
                     if confirmed:
                         break
-                rp = os.path.join(VERIF, "replays", "%s-%s.json" % (prop, h["name"]))
+                rp = os.path.join(OUT, "replays", "%s-%s.json" % (prop, h["name"]))
                 os.makedirs(os.path.dirname(rp), exist_ok=True)
                 json.dump(dict(property=prop, harness=h["name"], features=feats, failed_checks=sorted(unknown_descs),
                                confirmed=confirmed, tried=tried,
@@ -235,8 +239,8 @@ def run_property(prop, tier, seed, keep=False):
                   known_findings_reobserved=[dict(harness=a, check=b) for (a, b, c) in knownhits],
                   inconclusive=inconcl),
               assumptions=assumptions, wall_s=round(wall, 1), violations=len(viol))
-    os.makedirs(os.path.join(VERIF, "evidence"), exist_ok=True)
-    json.dump(ev, open(os.path.join(VERIF, "evidence", prop + ".json"), "w"), indent=1)
+    os.makedirs(os.path.join(OUT, "evidence"), exist_ok=True)
+    json.dump(ev, open(os.path.join(OUT, "evidence", prop + ".json"), "w"), indent=1)
     print("[%s %s] harnesses/queries=%d obligations=%d discharged=%d known=%d violations=%d inconclusive=%d wall=%.0fs"
           % (prop, tier, n_eval, n_oblig, n_disch, len(knownhits), len(viol), len(inconcl), wall))
     if viol:
